@@ -18,10 +18,10 @@ use tokio::time::Sleep;
 
 #[derive(Clone, Debug, Serialize, Deserialize, PartialEq, Default)]
 pub enum Gate {
-    /// deliverable as soon as the previous segment was delivered
+    /// available as soon as the previous segment is
     #[default]
     Now,
-    /// `ns` after the later of (enqueue time, delivery of the previous segment)
+    /// `ns` after the later of (enqueue time, the instant the previous segment became available)
     Delay { ns: u64 },
     /// not before virtual time `ns` since the start of the run
     Abs { ns: u64 },
@@ -62,6 +62,7 @@ enum SegKind {
 struct Seg {
     bytes: Vec<u8>,
     pos: usize,
+    ready: Option<u64>,
     gate: Gate,
     spurious: u8,
     enq_ns: u64,
@@ -72,7 +73,12 @@ struct Seg {
 pub struct PipeState {
     pub label: String,
     inq: VecDeque<Seg>,
-    last_delivery_ns: u64,
+    last_ready_ns: u64,
+    /// (stream offset at which the segment ends, virtual ns at which it became available to the server)
+    pub avail: Vec<(u64, u64)>,
+    avail_off: u64,
+    /// a server write is currently blocked or was only partially accepted
+    pub write_blocked: bool,
     read_waker: Option<Waker>,
     in_closed: Option<EofKind>,
     /// reads the server issued after EOF / reset had been delivered
@@ -93,6 +99,9 @@ pub struct PipeState {
     pub dropped_ns: Option<u64>,
     pub write_calls: u64,
     pub partial_accepts: u64,
+    write_attempt_ns: Option<u64>,
+    /// total virtual time server writes spent blocked by the plan
+    pub write_blocked_total_ns: u64,
 }
 
 impl PipeState {
@@ -112,6 +121,43 @@ impl PipeState {
             start = *end;
         }
         false
+    }
+
+    /// Availability times of the segments the server never got to (pure function of the plan and the signals).
+    pub fn resolve_rest(&mut self, signals: &std::collections::BTreeMap<String, u64>) {
+        let mut last = self.last_ready_ns;
+        let mut off = self.avail_off;
+        for seg in self.inq.iter() {
+            if let SegKind::Eof(_) = seg.kind {
+                continue;
+            }
+            let r = match seg.ready {
+                Some(r) => {
+                    last = last.max(r);
+                    continue;
+                }
+                None => {
+                    let base = seg.enq_ns.max(last);
+                    match &seg.gate {
+                        Gate::Now => base,
+                        Gate::Delay { ns } => base.saturating_add(*ns),
+                        Gate::Abs { ns } => base.max(*ns),
+                        Gate::Event { name, ns } => match signals.get(name) {
+                            Some(te) => base.max(*te).saturating_add(*ns),
+                            None => u64::MAX,
+                        },
+                    }
+                }
+            };
+            last = r;
+            off += seg.bytes.len() as u64;
+            self.avail.push((off, r));
+        }
+    }
+
+    /// virtual ns at which the byte ending at stream offset `end` was available to the server
+    pub fn avail_at(avail: &[(u64, u64)], end: u64) -> Option<u64> {
+        avail.iter().find(|(o, _)| *o >= end).map(|(_, t)| *t)
     }
 
     pub fn server_closed(&self) -> bool {
@@ -134,6 +180,7 @@ pub struct ServerEnd {
     world: W,
     rsleep: Option<Pin<Box<Sleep>>>,
     wsleep: Option<Pin<Box<Sleep>>>,
+    wpend_counted: bool,
 }
 
 pub struct ClientEnd {
@@ -153,6 +200,7 @@ pub fn pipe(world: &W, label: &str, wplan: Vec<WRule>) -> (ServerEnd, ClientEnd)
             world: world.clone(),
             rsleep: None,
             wsleep: None,
+            wpend_counted: false,
         },
         ClientEnd {
             st,
@@ -170,6 +218,7 @@ impl ClientEnd {
         st.inq.push_back(Seg {
             bytes,
             pos: 0,
+            ready: None,
             gate,
             spurious,
             enq_ns: now,
@@ -196,6 +245,7 @@ impl ClientEnd {
         st.inq.push_back(Seg {
             bytes: Vec::new(),
             pos: 0,
+            ready: None,
             gate,
             spurious: 0,
             enq_ns: now,
@@ -263,16 +313,29 @@ impl AsyncRead for ServerEnd {
                     }
                 };
             }
-            let last = st.last_delivery_ns;
+            let last = st.last_ready_ns;
             let Some(head) = st.inq.front_mut() else {
                 st.read_waker = Some(cx.waker().clone());
                 return Poll::Pending;
             };
-            let base = head.enq_ns.max(last);
-            let Some(ready) = resolve(&head.gate, base, &this.world, cx.waker()) else {
-                st.read_waker = Some(cx.waker().clone());
-                return Poll::Pending;
+            let ready = match head.ready {
+                Some(r) => r,
+                None => {
+                    let base = head.enq_ns.max(last);
+                    let Some(r) = resolve(&head.gate, base, &this.world, cx.waker()) else {
+                        st.read_waker = Some(cx.waker().clone());
+                        return Poll::Pending;
+                    };
+                    head.ready = Some(r);
+                    let len = head.bytes.len() as u64;
+                    st.last_ready_ns = r;
+                    st.avail_off += len;
+                    let off = st.avail_off;
+                    st.avail.push((off, r));
+                    r
+                }
             };
+            let head = st.inq.front_mut().unwrap();
             if ready > now {
                 st.read_waker = Some(cx.waker().clone());
                 drop(st);
@@ -295,7 +358,6 @@ impl AsyncRead for ServerEnd {
                     let rem = head.bytes.len() - head.pos;
                     if rem == 0 {
                         st.inq.pop_front();
-                        st.last_delivery_ns = now;
                         continue;
                     }
                     let n = rem.min(buf.remaining());
@@ -304,12 +366,10 @@ impl AsyncRead for ServerEnd {
                     }
                     buf.put_slice(&head.bytes[head.pos..head.pos + n]);
                     head.pos += n;
-                    head.gate = Gate::Now;
                     let done = head.pos == head.bytes.len();
                     if done {
                         st.inq.pop_front();
                     }
-                    st.last_delivery_ns = now;
                     st.read_total += n as u64;
                     return Poll::Ready(Ok(()));
                 }
@@ -350,6 +410,9 @@ impl AsyncWrite for ServerEnd {
             let now = this.world.lock().unwrap().now_ns();
             let mut st = this.st.lock().unwrap();
             st.write_calls += 1;
+            if st.write_attempt_ns.is_none() {
+                st.write_attempt_ns = Some(now);
+            }
             if matches!(st.in_closed, Some(EofKind::Reset)) {
                 return Poll::Ready(Err(io::Error::from(io::ErrorKind::BrokenPipe)));
             }
@@ -366,6 +429,7 @@ impl AsyncWrite for ServerEnd {
                     }
                 }
                 Some(WRule::Pend { ns }) => {
+                    st.write_blocked = true;
                     drop(st);
                     if this.wsleep.is_none() {
                         this.world.lock().unwrap().fault("write_pending_delay");
@@ -381,15 +445,12 @@ impl AsyncWrite for ServerEnd {
                 }
                 Some(WRule::PendEvent { name, ns }) => {
                     let gate = Gate::Event { name, ns };
+                    st.write_blocked = true;
+                    if !this.wpend_counted {
+                        this.wpend_counted = true;
+                        this.world.lock().unwrap().fault("write_pending_event");
+                    }
                     let Some(ready) = resolve(&gate, 0, &this.world, cx.waker()) else {
-                        drop(st);
-                        if this.wsleep.is_none() {
-                            // marker so the fault is counted once
-                            this.world.lock().unwrap().fault("write_pending_event");
-                            this.wsleep = Some(Box::pin(tokio::time::sleep(Duration::from_secs(
-                                86_400 * 365,
-                            ))));
-                        }
                         return Poll::Pending;
                     };
                     if ready > now {
@@ -402,6 +463,7 @@ impl AsyncWrite for ServerEnd {
                         continue;
                     }
                     this.wsleep = None;
+                    this.wpend_counted = false;
                     st.wplan.pop_front();
                     continue;
                 }
@@ -416,12 +478,20 @@ impl AsyncWrite for ServerEnd {
                     return Poll::Ready(Err(io::Error::from(io::ErrorKind::BrokenPipe)));
                 }
                 Some(WRule::Stall) => {
+                    st.write_blocked = true;
                     this.world.lock().unwrap().fault("write_stall");
                     return Poll::Pending;
                 }
             }
             if accept == 0 {
                 return Poll::Ready(Ok(0));
+            }
+            st.write_blocked = accept < buf.len();
+            if let Some(a) = st.write_attempt_ns.take() {
+                st.write_blocked_total_ns += now.saturating_sub(a);
+            }
+            if st.mid_frame() {
+                this.world.lock().unwrap().probe("server_write_while_frame_half_read");
             }
             st.out.push((now, buf[..accept].to_vec()));
             if let Some(w) = st.client_waker.take() {
